@@ -22,6 +22,10 @@ BUILT = {
          "Exhaustive TLC model check with a user stop (client keep, client delete, server keep) enabled in every state of the protocol (protocols 1..4, both directions): no role reports success unless every file was completed and verified, completed files are never damaged by a plain stop, after a noticed stop-and-delete nothing created is left, and both roles always finish; bound to the code by delivering the stop synchronously inside the wire before and after every protocol message of real transfers (plain, archive and directory/overwrite modes, destinations with pre-existing content) and judging the observed results, time from the stop to each role's return, what is left at the destination and what pre-existing entries changed.",
          "Trusts TLC, the harness wire (stop injected at message boundaries; sub-message timing left to the scheduler), filesystem snapshots; prompt = timeout + 1.5 s + 8 s slack; one stop per transfer; process-level SIGINT/SIGTERM on real trz/tsz binaries is not exercised (stopTransferringFiles(false) is called, which is all the signal handler does).",
          "2/C10", "transfer"),
+ "C11": ("TLA+ specs Transfer.tla (message level, time-outs, Termination) and Pipeline.tla (goroutine/channel level of sendFileDataV2, Termination + non-vacuity variant) checked by TLC; real transfers with silence / write errors / local failures at every message index validated against TransferObs.tla",
+         "TLC checks liveness (every behaviour ends with both roles finished / every pipeline stage exited) on the message-level model with faults and on the stage-level model of the sending pipeline with peer silence, write errors and read errors at every step (the pre-fix WaitGroup variant of the same model must and does violate it); bound to the code by making the peer fall silent or the connection fail after every message index of either direction, failing destination writes and shrinking the source mid-transfer in real transfers, and judging: time from the fault to each role's return, results, fail lines, and transfer goroutines still alive one time-out later.",
+         "Trusts TLC, the harness wire, runtime.Stack for leftover workers; wall-clock bound = read time-out + 1.5 s + 8 s slack; the receiving pipeline is covered by the real runs and the message-level model, its stage-level model is not written yet; perturbed goroutine schedules come only from the 96 concurrently running shard processes.",
+         "2/C11", "transfer"),
 }
 checks = []
 for p in props:
